@@ -827,6 +827,9 @@ class Interp:
             if f is not _MISSING:
                 return self.truth(self.call(f, [container, item], {}))
             raise Unmodelled("in: repo container without __contains__")
+        h = self.externals.get(("contains", t))
+        if h is not None:
+            return h(self, container, item)
         if isinstance(container, (list, tuple)):
             needs = is_sym(item) or loader.is_repo_class(type(item)) or contains_sym(container)
             if needs or any(loader.is_repo_class(type(x)) for x in container):
